@@ -299,7 +299,7 @@ func H_C07_count_diffs_gaps_L4() {
 
 // H_C07_count_diffs_internal: countDiffsWithInternalGaps (gap-mut 1) counts gap vs nucleotide only outside the leading/trailing gap runs of both rows, on the selected sites.
 // bounds: two encoded rows of L<=3 symbolic codes 0..15, symbolic selectedSites (rm-gaps may have removed any site), weights nil or dyadic k/2 (k=1..8), removeAmbiguous symbolic
-// outside: L>3 (thorough twin: 4), codes > 15; IEEE rounding is outside the claim: floats are exact reals
+// outside: L>3, codes > 15; IEEE rounding is outside the claim: floats are exact reals
 func H_C07_count_diffs_internal() {
 	vfCountDiffs(nondetRange(1, 3), 1, true)
 }
